@@ -7,8 +7,13 @@ package main
 
 import (
 	"bytes"
+	"crypto/elliptic"
+	"crypto/x509/pkix"
+	"encoding/asn1"
 	"encoding/json"
+	"encoding/pem"
 	"fmt"
+	"math/big"
 	"strings"
 )
 
@@ -206,6 +211,75 @@ func genCrash(yield func(any)) {
 			{Path: "sub.pem", Kind: "pem", Text: realPemVariant(n + 1), Age: 10 + rng.Intn(300)},
 		}})
 	}
+	// (g) real certificate next to a key block that is valid PEM and a valid outer PKCS#8 envelope but holds a key gopki
+	// cannot use (or a request / certificate that does not parse), on root or subscriber, with and without hash line,
+	// under every strategy: the partial result of a failed import must never reach signing as a usable key
+	uk := unusableBlocks()
+	for ui, u := range uk {
+		for where := 0; where < 2; where++ {
+			for hl := 0; hl < 2; hl++ {
+				for strat := 0; strat < 32; strat++ {
+					if !thorough() && !(strat == 9 || strat == 31 || strat == 1 || (strat+ui+where+hl)%8 == 0) {
+						continue
+					}
+					good := realPemVariant(5)
+					bad := string(stripBlock([]byte(good), "key")) + u
+					if hl == 1 {
+						bad = string(stripBlock([]byte(bad), "hash"))
+					}
+					rootPem, subPem := good, bad
+					if where == 0 {
+						rootPem, subPem = bad, good
+					}
+					yield(PkiIn{Tz: 0, Strat: strat, Files: []FileIn{
+						certFile("root.yaml", tinyCfg("Real", "", ""), true),
+						certFile("sub.yaml", tinyCfg("S", "root", ""), true),
+						{Path: "root.pem", Kind: "pem", Text: rootPem, Age: 100},
+						{Path: "sub.pem", Kind: "pem", Text: subPem, Age: 50},
+					}})
+				}
+			}
+		}
+	}
+}
+
+// unusableBlocks: PEM blocks that decode as PEM (and, for keys, as an outer PKCS#8 structure) but whose content gopki must reject
+func unusableBlocks() []string {
+	blk := func(typ string, der []byte) string { return string(pem.EncodeToMemory(&pem.Block{Type: typ, Bytes: der})) }
+	p256 := elliptic.P256()
+	oidP256 := mustOid("1.2.840.10045.3.1.7")
+	n := p256.Params().N
+	var out []string
+	// scalar zero, scalar = n, scalar > n, over-long scalar
+	for _, d := range []*big.Int{big.NewInt(0), n, new(big.Int).Add(n, big.NewInt(5)), new(big.Int).Lsh(big.NewInt(1), 300)} {
+		inner := must(asn1.Marshal(ecPrivForm{Version: 1, PrivateKey: d.Bytes()}))
+		out = append(out, blk("PRIVATE KEY", must(asn1.Marshal(pkcs8Form{Version: 0, Algo: pkix.AlgorithmIdentifier{Algorithm: hOidEc, Parameters: asn1.RawValue{FullBytes: must(asn1.Marshal(oidP256))}}, PrivateKey: inner}))))
+	}
+	good := foreignEc(p256, oidP256, big.NewInt(12345), "plain")
+	// a curve gopki does not know (secp256k1), no curve at all, parameters that are not an OID
+	out = append(out, blk("PRIVATE KEY", foreignEc(p256, mustOid("1.3.132.0.10"), big.NewInt(12345), "plain")))
+	out = append(out, blk("PRIVATE KEY", foreignEc(p256, oidP256, big.NewInt(12345), "no-params")))
+	inner := must(asn1.Marshal(ecPrivForm{Version: 1, PrivateKey: []byte{1, 2, 3}}))
+	out = append(out, blk("PRIVATE KEY", must(asn1.Marshal(pkcs8Form{Version: 0, Algo: pkix.AlgorithmIdentifier{Algorithm: hOidEc, Parameters: asn1.RawValue{FullBytes: []byte{5, 0}}}, PrivateKey: inner}))))
+	// inner ECPrivateKey with version 2, truncated, empty
+	iv := must(asn1.Marshal(ecPrivForm{Version: 2, PrivateKey: []byte{1, 2, 3}}))
+	for _, in := range [][]byte{iv, inner[:len(inner)-2], {}, {0x30, 0x00}} {
+		out = append(out, blk("PRIVATE KEY", must(asn1.Marshal(pkcs8Form{Version: 0, Algo: pkix.AlgorithmIdentifier{Algorithm: hOidEc, Parameters: asn1.RawValue{FullBytes: must(asn1.Marshal(oidP256))}}, PrivateKey: in}))))
+	}
+	// RSA envelope around something that is not an RSAPrivateKey
+	for _, in := range [][]byte{{}, {0x30, 0x00}, {0x30, 0x03, 0x02, 0x01, 0x00}, inner} {
+		out = append(out, blk("PRIVATE KEY", must(asn1.Marshal(pkcs8Form{Version: 0, Algo: pkix.AlgorithmIdentifier{Algorithm: hOidRsa, Parameters: asn1.NullRawValue}, PrivateKey: in}))))
+	}
+	// unknown algorithm, wrong PKCS#8 version, trailing bytes, a PKCS#1 / SEC1 block type
+	out = append(out, blk("PRIVATE KEY", must(asn1.Marshal(pkcs8Form{Version: 0, Algo: pkix.AlgorithmIdentifier{Algorithm: mustOid("1.2.3.4")}, PrivateKey: inner}))))
+	out = append(out, blk("PRIVATE KEY", must(asn1.Marshal(pkcs8Form{Version: 1, Algo: pkix.AlgorithmIdentifier{Algorithm: hOidEc, Parameters: asn1.RawValue{FullBytes: must(asn1.Marshal(oidP256))}}, PrivateKey: inner}))))
+	out = append(out, blk("PRIVATE KEY", append(append([]byte{}, good...), 0, 0)))
+	out = append(out, blk("EC PRIVATE KEY", inner), blk("ENCRYPTED PRIVATE KEY", good))
+	// a request / second certificate that is a DER value but not the expected structure
+	out = append(out, blk("CERTIFICATE REQUEST", []byte{0x30, 0x00}), blk("CERTIFICATE REQUEST", good), blk("CERTIFICATE", []byte{0x30, 0x00}))
+	// an unusable key followed by a usable one, and the other way round
+	out = append(out, out[0]+blk("PRIVATE KEY", good), blk("PRIVATE KEY", good)+out[0])
+	return out
 }
 
 // degenerateExtensions: for each structured kind, the content with one member emptied ("", [], {}, 0, absent)
